@@ -2,9 +2,11 @@ package sasl
 
 import (
 	"bufio"
+	"bytes"
 	"context"
 	"crypto/tls"
 	"encoding/base64"
+	"encoding/json"
 	"fmt"
 	"log"
 	"net"
@@ -403,11 +405,19 @@ func (s *Server) authenticate(username, password string) bool {
 		email = username + "@" + s.domain
 	}
 
-	// Prepare JSON request
-	requestBody := fmt.Sprintf(`{"email":"%s","password":"%s"}`, email, password)
+	// Prepare JSON request (encoding/json escapes quotes, backslashes and control
+	// characters, so the auth server reads exactly this email and password)
+	requestBody, err := json.Marshal(struct {
+		Email    string `json:"email"`
+		Password string `json:"password"`
+	}{Email: email, Password: password})
+	if err != nil {
+		log.Printf("Failed to encode authentication request: %v", err)
+		return false
+	}
 
 	// Create HTTP request
-	req, err := http.NewRequest("POST", s.authURL, strings.NewReader(requestBody))
+	req, err := http.NewRequest("POST", s.authURL, bytes.NewReader(requestBody))
 	if err != nil {
 		log.Printf("Failed to create HTTP request: %v", err)
 		return false
